@@ -644,6 +644,13 @@ MUTANTS = [
             m_body(m_range, final_scan_tag());
         else if( m_sum_slot )
             m_body(m_range, pre_scan_tag());""")]),
+    dict(name='c06-simple-partition-stops-splitting-by-thread-count', prop='C06', clause='D3', edits=[('include/oneapi/tbb/partitioner.h',
+        """        split_type split_obj = split(); // start.offer_work accepts split_type as reference
+        while( range.is_divisible() )
+            start.offer_work( split_obj, ed );""", """        split_type split_obj = split(); // start.offer_work accepts split_type as reference
+        std::size_t budget = get_initial_auto_partitioner_divisor() * 64;
+        while( range.is_divisible() && budget-- )
+            start.offer_work( split_obj, ed );""")]),
     # ---------------------------------------------------------------- C07
     dict(name='c07-next-token-unlocked', prop='C07', clause='D1', edits=[
         (PP_CPP, "        task_info wakee;\n        {\n            spin_mutex::scoped_lock lock( array_mutex );\n            // Wake the next task", "        task_info wakee;\n        {\n            // Wake the next task")]),
